@@ -53,6 +53,10 @@ def run(ctx):
         if m:
             for lab, d in gen_mod.capacity_mutants(m, L, rng):
                 cases.append((os.path.basename(s) + ":" + lab, d))
+    # minimised past disagreements run first in every tier
+    import glob
+    for f in sorted(glob.glob(os.path.join(build.VERIF, "corpus", "modules", "*.hex"))):
+        cases.append(("corpus:" + os.path.basename(f), bytes.fromhex(open(f).read().strip())))
     # synthetic instruction soups
     nsyn = 400 if quick else 6000
     for k in range(nsyn):
